@@ -57,6 +57,16 @@ def gen_c19(tier, seed):
         for wait, bf in [(8, (2, 1)), (16, (3, 2)), (8, (1, 1))]:
             for tc in range(1, 90, 2 if tier == 'quick' else 1):
                 out.append(scn('s%d' % len(out), [caller(retries=retries, wait=wait, bf=bf, attempts=[KINDS[o] for o in oc], cancel_at=tc)]))
+    # overlapping calls of the *same* decorated function (same parameters): one call's attempts start and fail while another call's attempt
+    # is in flight; every call must keep its own attempt count, waits and last exception
+    for _ in range(150 if tier == 'quick' else 3000):
+        retries = rng.randint(1, 3)
+        wait, bf, restricted = rng.choice([8, 16]), rng.choice(BFS), rng.random() < 0.4
+        cs = []
+        for i in range(rng.randint(2, 3)):
+            atts = [(rng.choice(['listed', 'listed', 'ok', 'unlisted']), rng.choice([2, 3, 5, 7, 11, 13])) for _ in range(retries + 1)]
+            cs.append(caller(arrive=rng.choice([0, 1, 2, 3, 4, 6, 9]), retries=retries, wait=wait, bf=bf, timeout=20, restricted=restricted, attempts=atts))
+        out.append(scn('s%d' % len(out), cs))
     for _ in range(200 if tier == 'quick' else 5000):   # random parameters (dyadic factors keep the arithmetic exact)
         retries = rng.randint(0, 4)
         atts = [(rng.choice(['ok', 'listed', 'unlisted']), rng.choice([1, 2, 3, 5, 7, 11, 25, 33])) for _ in range(retries + 1)]
